@@ -11,6 +11,7 @@ EXPLANATION = (
     "acceptance probability k/(i+1), uniform victim. R05-slot-range: in the gap phase the victim slot is drawn from exactly 0..k. "
     "R05-gap-term: the value stored to skip_until is i + 1 + g with g = floor(ln(u)/ln(1-p)) as usize, u = 1 - gen_range(0.0..1.0), "
     "p = k/(i+1): skip_until is the index of the next accepted item."
+    " R05-gap-init: some drawn store to skip_until lies outside the region dominated by the guard that reads it (otherwise the first gap-phase item is decided by the constructor's constant). The sampler's clear() is checked with C19's rule (phase state kept across clear() makes the next stream non-uniform)."
 )
 NOT_DECIDED = ("(1) the item at the phase switch: which definition of skip_until (the 0 from new/clear or a drawn gap) reaches the guard on the "
                "first gap-phase call is a fact about the history of i, not about a path of add — today the 0 reaches it, so stream position "
